@@ -202,7 +202,7 @@ def worker(ctx: Ctx):
     os.environ["VERIF_TIER_C03"] = ctx.tier
     q = ctx.tier == "quick"
     vs = variants(ctx.tier)
-    paths = [p for p in STOCHASTIC_SHIPPED if os.path.exists(os.path.join(os.environ.get("VERIF_REPO") or "/repo", p))]
+    paths = [p for p in STOCHASTIC_SHIPPED if os.path.exists(os.path.join("/repo", p))]
     if q:
         paths = [p for p in paths if "uc7_config_tap003" not in p]
     n_ship, n_gen = (4, 4) if q else (60, 60)
